@@ -165,6 +165,22 @@ func c12(ctx *Ctx) (*Outcome, error) {
 				}
 			}
 		}
+		if (i%4 == 1 || i%4 == 3) && (big.DefsKey == "" || big.DefsKey == "$defs") {
+			// (only where the generated definitions are written under $defs: the same key twice is outside what is asserted)
+			// a half-migrated document: `definitions` next to `$defs`, with entries of the same names and other content,
+			// and entries of its own (one of them referenced with the legacy pointer): which of two same-named entries
+			// wins is a function of the keywords, not of where they stand in the file
+			big.Extra = append(big.Extra, jsonx.KV{K: "definitions", V: jsonx.Obj{
+				{K: "Bulk00", V: jsonx.Obj{{K: "type", V: "object"}, {K: "properties", V: jsonx.Obj{{K: "legacyOnly", V: jsonx.Obj{{K: "type", V: "string"}, {K: "minLength", V: jsonx.N(2)}}}}}, {K: "required", V: []any{"legacyOnly"}}}},
+				{K: "DetEither", V: jsonx.Obj{{K: "type", V: "boolean"}}},
+				{K: "Bulk03", V: jsonx.Obj{{K: "type", V: "string"}, {K: "enum", V: []any{"legacy-a", "legacy-b"}}}},
+				{K: "LegacyOwn", V: jsonx.Obj{{K: "type", V: "integer"}, {K: "maximum", V: jsonx.N(9)}}},
+			}})
+			if len(big.Types) == 1 && big.Types[0] == "object" {
+				big.Props = append(big.Props, sg.Prop{Name: "detBulkNew", S: &sg.Schema{Extra: jsonx.Obj{{K: "$ref", V: "#/$defs/Bulk00"}}}}, sg.Prop{Name: "detBulkOld", S: &sg.Schema{Extra: jsonx.Obj{{K: "$ref", V: "#/definitions/Bulk00"}}}},
+					sg.Prop{Name: "detBulk3", S: &sg.Schema{Extra: jsonx.Obj{{K: "$ref", V: "#/$defs/Bulk03"}}}})
+			}
+		}
 		if i%4 == 2 {
 			// keywords the generator does not (fully) support, each with several entries: whatever it makes of them,
 			// it makes the same of them in every process
